@@ -163,6 +163,11 @@ func pickW(r *gen.Rng, ws []int) int {
 	return 0
 }
 
+// what a hostile peer may put into SUBSCRIBE / UNSUBSCRIBE / PUBLISH (the scripted peers bypass the codec, so the
+// broker sees them exactly as a decoder that does not validate topics would hand them over)
+var hostileFilters = []string{"#/x", "a/#/b", "#/#", "+x", "x+/y", "a/#x", "a\x00b", "\x00", "a/+/#/c", "//", "/+/", strings.Repeat("l/", 3000) + "#", strings.Repeat("q", 65535)}
+var hostileTopics = []string{"a/+", "#", "a/#", "+/+", "a\x00", "\x00", "//", strings.Repeat("l/", 3000) + "x", strings.Repeat("q", 65535)}
+
 // randomScript: clients connect, then a weighted random walk over the stimulus alphabet
 func randomScript(r *gen.Rng, o *out.W, prop string, p profile) {
 	w := newWorld(o, prop, p.window, p.queue, nil)
@@ -202,17 +207,29 @@ func randomScript(r *gen.Rng, o *out.W, prop string, p profile) {
 			}
 			var subs []packet.Subscription
 			for i := 0; i < n; i++ {
-				subs = append(subs, packet.Subscription{Topic: filters[r.Intn(len(filters))], QOS: p.qos[r.Intn(len(p.qos))]})
+				f := filters[r.Intn(len(filters))]
+				if p.wBad > 0 && r.Intn(4) == 0 {
+					f = hostileFilters[r.Intn(len(hostileFilters))]
+				}
+				subs = append(subs, packet.Subscription{Topic: f, QOS: p.qos[r.Intn(len(p.qos))]})
 			}
 			w.Subscribe(c, subs...)
 		case 1:
-			w.Unsubscribe(c, filters[r.Intn(len(filters))])
+			f := filters[r.Intn(len(filters))]
+			if p.wBad > 0 && r.Intn(4) == 0 {
+				f = hostileFilters[r.Intn(len(hostileFilters))]
+			}
+			w.Unsubscribe(c, f)
 		case 2:
 			if sent >= budget {
 				continue
 			}
 			sent++
-			w.Publish(c, topics[r.Intn(len(topics)-3)+r.Intn(2)*0], p.qos[r.Intn(len(p.qos))], r.Intn(100) < p.retain, r.Intn(100) < p.retain/4)
+			tp := topics[r.Intn(len(topics)-3)+r.Intn(2)*0]
+			if p.wBad > 0 && r.Intn(5) == 0 {
+				tp = hostileTopics[r.Intn(len(hostileTopics))]
+			}
+			w.Publish(c, tp, p.qos[r.Intn(len(p.qos))], r.Intn(100) < p.retain, r.Intn(100) < p.retain/4)
 		case 3:
 			if !w.AckOne(c, r.Intn(4)) {
 				w.Release(c)
@@ -608,6 +625,27 @@ func c20Script(r *gen.Rng, o *out.W) {
 			for j, m := 0, 2+r.Intn(5); j < m; j++ {
 				ps = append(ps, mk(r.Pick(7, 7, 9, 11, 11, 2)))
 			}
+			// the QoS of a delivery is decided by a race between dequeuer and processor when a later request of the same
+			// batch changes the grant of a filter matching a message published earlier in it: keep such batches out
+			seenPub := false
+			for _, p := range ps {
+				switch q := p.(type) {
+				case *packet.Publish:
+					seenPub = true
+				case *packet.Subscribe:
+					for j := range q.Subscriptions {
+						if seenPub && tmatch(q.Subscriptions[j].Topic, "zzz") {
+							q.Subscriptions[j].Topic = "a/b"
+						}
+					}
+				case *packet.Unsubscribe:
+					for j := range q.Topics {
+						if seenPub && tmatch(q.Topics[j], "zzz") {
+							q.Topics[j] = "a/b"
+						}
+					}
+				}
+			}
 			w.SendBatch(c, ps)
 			desc += " batch"
 		} else {
@@ -661,6 +699,39 @@ func c20Long(r *gen.Rng, o *out.W) {
 	w.finish()
 	o.Distinct("long " + focus + fmt.Sprint(n))
 	o.Sample(fmt.Sprintf("C20 long run: %d requests, mostly %s", n, focus))
+}
+
+// a client that floods itself (C14): it subscribes to what it publishes and never acknowledges, so its window and then
+// its own queue fill up; the broker refuses the next publish (queue full) and closes it; its will goes to the same full
+// queue and fails too — the connection must still be terminated exactly once and nobody else is disturbed.  Only the
+// flooder's own session matches the flood, so the outcome does not depend on the order in which the backend walks its
+// sessions.
+func c14OwnQueue(r *gen.Rng, o *out.W) {
+	q := 2 + r.Intn(3)
+	w := newWorld(o, "C14", 1, q, nil)
+	wit := w.Conn()
+	w.Connect(wit, "W", true, nil, 0, "", "")
+	w.Subscribe(wit, packet.Subscription{Topic: "other/#", QOS: 1})
+	w.mustSurvive[wit] = true
+	c := w.Conn()
+	var will *packet.Message
+	if r.Intn(4) != 0 {
+		will = &packet.Message{Topic: "x/will", Payload: []byte("will-own"), QOS: packet.QOS(1 + r.Intn(2))}
+	}
+	w.Connect(c, "V", r.Bool(), will, 0, "", "")
+	w.Subscribe(c, packet.Subscription{Topic: "x/#", QOS: packet.QOS(1 + r.Intn(2))})
+	for i := 0; i < q+4 && w.alive(c); i++ {
+		w.Publish(c, "x/y", packet.QOS(1+r.Intn(2)), false, false)
+		if r.Intn(3) == 0 {
+			w.Publish(wit, "other/z", 1, false, false)
+			w.AckAll(wit)
+		}
+	}
+	w.Publish(wit, "other/z", 1, false, false)
+	w.AckAll(wit)
+	w.finish()
+	o.Distinct(strings.Join(w.trace, "\n"))
+	o.Sample(fmt.Sprintf("own-queue flood, queue %d, %d lines", q, len(w.trace)))
 }
 
 // takeover storms for C13
@@ -838,6 +909,7 @@ func TestHarness(t *testing.T) {
 		rs("C14 hostile", func() profile {
 			return profile{window: 2 + r.Intn(4), queue: 100, clients: 2 + r.Intn(4), steps: 30 + r.Intn(40), wSub: 4, wUnsub: 1, wPub: 8, wAck: 4, wDrop: 3, wRecon: 4, wRelease: 1, wPing: 1, wBad: 6, wFail: 3, retain: 20, wills: true, qos: all, multiFilter: true}
 		})
+		sc("C14 own queue", c14OwnQueue)
 	case "C15":
 		sc("C15 resume order", c15Resume)
 		rs("C15 ordering", func() profile {
